@@ -9,7 +9,7 @@ Import ListNotations.
 
 (* the clauses read from ak/ghist.py are the ones the model and the theorems rely on *)
 Theorem consts_ok :
-  src_prune = PruneAtFrom /\ In ClBump src_is_rbuild /\
+  src_prune = PruneAtFromAncestors /\ In ClBump src_is_rbuild /\
   (forall c, In c src_is_rbuild <-> In c [ClNew; ClBump; ClMerge]) /\ src_cycle_err = ValueErr.
 Proof. exact (conj src_prune_ok (conj src_bump_clause (conj src_rbuild_clauses src_cycle_err_ok))). Qed.
 Print Assumptions consts_ok.
@@ -113,98 +113,128 @@ Print Assumptions repo_order_ex.
 (* ================================================================== *)
 (* what a bump contains: get_rbuilds_in_bump                            *)
 
-(* FULL STATEMENT (Lemmas.bump_set_statement): for from-builds contained in the new pin,
-   get_rbuilds_in_bump = ancestors*(to) \ ancestors*(from).  It is FALSE for the current
-   code: the DFS stops only AT the from-builds, so an ancestor of a from-build is
-   collected when a parallel path by-passes that from-build (DESIGN.md section 7). *)
-Theorem bump_set_refuted : ~ bump_set_statement.
-Proof. exact bump_set_refuted_l. Qed.
-Print Assumptions bump_set_refuted.
-
-(* what holds: the result is duplicate free, contains everything the property wants,
-   and contains nothing else EXACTLY WHEN the from-builds separate the graph *)
-Theorem bump_set : forall cg b t, wf cg -> b_to b = Some t ->
-  exists l, rbuilds_in_bump cg b = Some l /\ NoDup l /\
-    (forall y, (anc cg t y /\ forall f, In f (b_from b) -> ~ anc cg f y) -> In y l) /\
-    (separates cg (b_from b) t <->
-     forall y, In y l -> anc cg t y /\ forall f, In f (b_from b) -> ~ anc cg f y).
-Proof. exact bump_set_guarded. Qed.
-Print Assumptions bump_set.
-
-(* in particular on a linear component history (every RBuild has at most one parent) *)
-Theorem bump_set_linear_history : forall cg b t, wf cg -> linear cg -> b_to b = Some t ->
-  (forall f, In f (b_from b) -> anc cg t f) ->
+(* FULL STATEMENT (Lemmas.bump_set_statement): get_rbuilds_in_bump = ancestors*(to) \ ancestors*(from).
+   It was FALSE for the code before d037b67 (the DFS stopped only AT the from-builds, so an ancestor
+   of a from-build was collected when a parallel path by-passed that from-build: finding
+   included-at-twice-parallel-path).  For the repaired code it is a theorem: for every component
+   build graph (parents have smaller iids), every to-build and EVERY set of from-builds (contained
+   in the new pin or not) the call returns, within the model's fuel, a duplicate-free list of
+   exactly the builds the new pin contains and none of the previous pins contains. *)
+Theorem bump_set_exact : forall cg b t, wf cg -> b_to b = Some t ->
   exists l, rbuilds_in_bump cg b = Some l /\ NoDup l /\
     forall y, In y l <-> (anc cg t y /\ forall f, In f (b_from b) -> ~ anc cg f y).
-Proof. exact bump_set_linear. Qed.
-Print Assumptions bump_set_linear_history.
+Proof. exact bump_set_exact_l. Qed.
+Print Assumptions bump_set_exact.
 
+Theorem bump_set_statement_holds : bump_set_statement.
+Proof. exact bump_set_statement_l. Qed.
+Print Assumptions bump_set_statement_holds.
+
+(* the first loop alone: excluded_iids = the from-builds and all their ancestors, nothing else *)
+Theorem excluded_set : forall cg from, wf cg ->
+  exists ex, excluded cg from = Some ex /\ forall y, In y ex <-> exists f, In f from /\ anc cg f y.
+Proof. exact excluded_spec. Qed.
+Print Assumptions excluded_set.
+
+(* a bump without a resolved new build contains nothing *)
+Theorem bump_set_none : forall cg b, b_to b = None -> rbuilds_in_bump cg b = Some [].
+Proof. exact rbuilds_in_bump_none. Qed.
+Print Assumptions bump_set_none.
+
+(* linear history; the former witness 0 <- {1, 2} <- 3, from {2}, to 3 (the old code returned
+   [0; 1; 3]); from-builds that the new pin does not contain (2 || 1) *)
 Example bump_set_ex :
   rbuilds_in_bump [(0, []); (1, [0]); (2, [1]); (3, [2])] (mkB [] (1, 1, 9)%Z [1] (Some 3)) = Some [2; 3] /\
-  rbuilds_in_bump w_cg w_bump = Some [0; 1; 3].
-Proof. vm_compute. split; reflexivity. Qed.
+  rbuilds_in_bump w_cg w_bump = Some [1; 3] /\
+  rbuilds_in_bump w_cg (mkB [] (1, 1, 6)%Z [2] (Some 1)) = Some [1] /\
+  excluded w_cg [3] = Some [0; 1; 2; 3].
+Proof. vm_compute. repeat split. Qed.
 Print Assumptions bump_set_ex.
 
 (* ================================================================== *)
 (* included_at: the first parent build that ships a component build     *)
 
-(* FULL STATEMENT (Lemmas.included_first_statement): in every report, component build y is
-   recorded at a reported parent build exactly when that build's pin contains y and no
-   ancestor build of it in the same branch has a pin containing y.  FALSE for the current
-   code (same defect); the witness is the history of DESIGN.md section 7. *)
+(* FULL STATEMENT (Lemmas.included_first_statement): in every report of a parent whose commits all
+   pin the component and whose pins never decrease (in the order of build numbers) along a branch,
+   component build y is recorded at a reported parent build exactly when that build's pin contains
+   y and no ancestor build of it in the same branch has a pin containing y.  Still FALSE for the
+   current code (open finding included-at-again-after-pin-left): a bump only subtracts what the
+   immediately preceding reported builds shipped.  Witness: component 1.1.1 <- {1.1.5, 1.1.6} <- 1.1.7,
+   parent builds pin 1.1.5, 1.1.6, 1.1.7; 1.1.5 is recorded at the first and at the third build. *)
 Theorem included_first_refuted : ~ included_first_statement.
 Proof. exact included_first_refuted_l. Qed.
 Print Assumptions included_first_refuted.
 
 Theorem included_first_witness :
-  exists r, parent_report w_ci w_commits w_heads = Ok r /\
-            included_at r 0 = [(0, (5, 1, 2)%Z); (0, (5, 1, 3)%Z)].
-Proof. exact w_included. Qed.
+  exists r, parent_report v_ci v_commits w_heads = Ok r /\
+            included_at r 2 = [(0, (5, 1, 1)%Z); (0, (5, 1, 3)%Z)].
+Proof. exact v_included. Qed.
 Print Assumptions included_first_witness.
 
-(* PROVED PART: one parent branch whose reported builds form a chain (each bump starts
-   from the previous build's pin, pins only grow) over a linear component history: the
-   registration loop records y at the i-th build iff that is the first build shipping y.
-   Missing for the full statement: (1) that _read_branch produces such chains on linear
-   parent histories is checked by the correspondence run only; (2) parent or component
-   histories with parallel sub-branches (where the statement is false, see above). *)
-Theorem included_first_partial : forall ci br rbs bs regs,
-  wf (ci_graph ci) -> linear (ci_graph ci) ->
-  map (fun p => rb_bump (snd p)) rbs = map Some bs ->
-  (forall p, In p rbs -> bn_eqb (rb_bn (snd p)) fake_not_merged = false) ->
-  NoDup (map (fun p => rb_bn (snd p)) rbs) ->
-  chain (ci_graph ci) None bs ->
-  registrations ci [(br, rbs)] = Some regs ->
-  forall i p y, nth_error rbs i = Some p ->
-    (In (y, (br, rb_bn (snd p))) regs <->
-     ships (ci_graph ci) bs i y /\ forall j, j < i -> ~ ships (ci_graph ci) bs j y).
+(* the history of DESIGN.md section 7 (finding included-at-twice-parallel-path, fixed by d037b67):
+   component 1.1.4 <- {1.1.5, 1.1.6} <- 1.1.7, parent builds pin 1.1.5 then 1.1.7; every component
+   build is now recorded at exactly the first parent build that ships it *)
+Example included_first_fixed_ex :
+  exists r, parent_report w_ci w_commits w_heads = Ok r /\
+            included_at r 0 = [(0, (5, 1, 2)%Z)] /\ included_at r 1 = [(0, (5, 1, 3)%Z)] /\
+            included_at r 2 = [(0, (5, 1, 2)%Z)] /\ included_at r 3 = [(0, (5, 1, 3)%Z)].
+Proof. exact w_included. Qed.
+Print Assumptions included_first_fixed_ex.
+
+(* PROVED PART, registration loop: for every set of parent branches (distinct names), every
+   component build graph (parallel sub-branches and merges included) and every shape of a branch
+   (forks and merges of reported builds): if the builds of the branch are linked (every parent
+   build is a build of the branch carrying a bump, the from-builds of a bump are the to-builds of
+   the parent builds' bumps - what _mk_bumps_info establishes, theorem bump_from, when every commit
+   pins the component) and the successive pins are ANCESTOR-ORDERED in the component graph (each
+   bump moves to a build that contains the builds it moves from), then y is recorded at a build
+   iff that build ships y and no ancestor build of it in the branch does.
+   What separates this from the full statement: pins that grow in build NUMBER but not in the
+   ancestor order (the witness above) -- there the statement is false for the current code. *)
+Theorem included_first_partial : forall ci branches regs,
+  wf (ci_graph ci) -> NoDup (map fst branches) -> registrations ci branches = Some regs ->
+  forall br rbs, In (br, rbs) branches ->
+    NoDup (map fst rbs) -> NoDup (map (fun p => rb_bn (snd p)) rbs) ->
+    linked rbs -> pins_ordered (ci_graph ci) rbs ->
+    forall i rb b t y, In (i, rb) rbs -> bn_eqb (rb_bn rb) fake_not_merged = false ->
+      rb_bump rb = Some b -> b_to b = Some t ->
+      (In (y, (br, rb_bn rb)) regs <->
+       anc (ci_graph ci) t y /\
+       forall j rb' b' t', panc rbs i j -> In (j, rb') rbs -> rb_bump rb' = Some b' -> b_to b' = Some t' ->
+                           ~ anc (ci_graph ci) t' y).
 Proof. exact included_first_l. Qed.
 Print Assumptions included_first_partial.
 
-(* the hypotheses are satisfiable: linear component 0 <- 1 <- 2 <- 3, three parent builds
-   pinning component builds 1, 1+2 -> 2, 3 *)
-Example included_first_ex :
-  let ci := mkCI [(0, ((1,1,1)%Z, [])); (1, ((1,1,2)%Z, [0])); (2, ((1,1,3)%Z, [1])); (3, ((1,1,4)%Z, [2]))] [] [] in
-  let b1 := mkB [] (1,1,2)%Z [] (Some 1) in
-  let b2 := mkB [(1,1,2)%Z] (1,1,3)%Z [1] (Some 2) in
-  let b3 := mkB [(1,1,3)%Z] (1,1,4)%Z [2] (Some 3) in
-  let rbs := [(0%Z, mkRB (5,1,1)%Z 0 [] [] (Some b1)); (1%Z, mkRB (5,1,2)%Z 0 [0%Z] [] (Some b2));
-              (2%Z, mkRB (5,1,3)%Z 0 [1%Z] [] (Some b3))] in
-  chain (ci_graph ci) None [b1; b2; b3] /\
-  registrations ci [(7, rbs)] =
-    Some [(0, (7, (5,1,1)%Z)); (1, (7, (5,1,1)%Z)); (2, (7, (5,1,2)%Z)); (3, (7, (5,1,3)%Z))].
-Proof.
-  cbv zeta. split; [|vm_compute; reflexivity].
-  eapply ch_first; [reflexivity|reflexivity|].
-  eapply ch_next; [reflexivity|reflexivity| |].
-  { eapply anc_step; [|apply anc_refl]. cbn. auto. }
-  eapply ch_next; [reflexivity|reflexivity| |apply ch_nil].
-  eapply anc_step; [|apply anc_refl]. cbn. auto.
-Qed.
-Print Assumptions included_first_ex.
+(* ... and the same about the report of the whole model (RGraph construction + registration):
+   the conclusion of included_first_statement under the two structural guards.  That the RGraph
+   construction yields linked branches is the local theorem bump_from plus the correspondence run,
+   not a global theorem; that keys and build numbers of a branch are distinct is a guard too. *)
+Theorem included_first_guarded : forall ci commits heads r,
+  wf (ci_graph ci) -> parent_report ci commits heads = Ok r -> NoDup (map fst heads) ->
+  forall br rbs, In (br, rbs) (r_branches r) ->
+    NoDup (map fst rbs) -> NoDup (map (fun p => rb_bn (snd p)) rbs) ->
+    linked rbs -> pins_ordered (ci_graph ci) rbs ->
+    forall i rb b t y, In (i, rb) rbs -> bn_eqb (rb_bn rb) fake_not_merged = false ->
+      rb_bump rb = Some b -> b_to b = Some t -> In y (map fst (ci_rbs ci)) ->
+      (In (br, rb_bn rb) (included_at r y) <->
+       anc (ci_graph ci) t y /\
+       forall j rb' b' t', panc rbs i j -> In (j, rb') rbs -> rb_bump rb' = Some b' -> b_to b' = Some t' ->
+                           ~ anc (ci_graph ci) t' y).
+Proof. exact included_first_report_l. Qed.
+Print Assumptions included_first_guarded.
 
-(* ONE DIRECTION HOLDS FOR EVERY HISTORY (any branches, merges, parallel component builds):
-   a component build contained in the new pin and in none of the bump's from-builds is
+(* the guards are satisfiable on a component with parallel sub-branches: the report of the history
+   of DESIGN.md section 7 (component 1.1.4 <- {1.1.5, 1.1.6} <- 1.1.7, pins 1.1.1, 1.1.5, 1.1.7) has one
+   branch of two reported builds that is linked and whose pins are ancestor-ordered *)
+Example included_first_guarded_ex :
+  exists r rbs, parent_report w_ci w_commits w_heads = Ok r /\ In (0, rbs) (r_branches r) /\
+    length rbs = 2 /\ NoDup (map fst rbs) /\ NoDup (map (fun p => rb_bn (snd p)) rbs) /\
+    linked rbs /\ pins_ordered (ci_graph w_ci) rbs.
+Proof. exact w_guards. Qed.
+Print Assumptions included_first_guarded_ex.
+
+(* ONE DIRECTION HOLDS FOR EVERY HISTORY (any branches, merges, parallel component builds, any
+   pins): a component build contained in the new pin and in none of the bump's from-builds is
    recorded at that parent build -- registrations are never missing, only (see above)
    sometimes repeated *)
 Theorem included_never_missing : forall ci branches regs, wf (ci_graph ci) ->
